@@ -447,6 +447,8 @@ def gen_C13(rng, tier):
 def gen_C12(rng, tier):
     out = torn_tail_battery(rng)      # accessors after a torn-tail repair (several sections lost)
     acc = ["len", "is_empty", "range", "last_line", "payload_size"]
+    out += index_lag_battery(rng, acc + ["read_all s=U e=U"])
+    out += empty_reopen_battery(acc + ["read_all s=U e=U"])
     # "the contents" are what a full read returns: accessors and the full read side by side on files
     # with a section header near the end of a read buffer
     out += reader_buffer_end_battery(tier, acc + ["read_all s=U e=U"])
@@ -525,6 +527,8 @@ def gen_C15(rng, tier):
     out = all_bytes_battery(["files", "read_all s=U e=U"])
     # after a torn-tail repair the next appends must again give the canonical bytes
     out += torn_tail_battery(rng)
+    out += index_lag_battery(rng, ["files"])
+    out += empty_reopen_battery(["files"])
     # ... and after an index rebuilt from a data file spanning several read buffers (a section the
     # rebuild misses makes the next append open a section too many)
     out += [x for x in gen_C06(random.Random(rng.randrange(1 << 30)), tier) if x[0].startswith("big")]
@@ -618,6 +622,89 @@ def torn_tail_battery(rng):
     return out
 
 
+def index_lag_battery(rng, ops_after):
+    """several sections inside the last few KB of the data file, the index file shorter by one or
+    more whole entries (it is not synced with the data), reopen: the series is the same series - the
+    accessors, the append rule relative to the last line, the contents"""
+    out = []
+    for p in [0, 2, 4, 8]:
+        h = Hist(p)
+        h.new()
+        t = rng.choice([10, 1000, 70000])
+        firsts = []
+        for sec in range(4):
+            firsts.append(t)
+            for k in range(3 if sec < 3 else 1):
+                h.push(t, rng)
+                t += 5 + k
+            t += 100000 + 17 * sec
+        if not marker_free(p, h.ts):
+            continue
+        last = h.last()
+        nsec = 4
+        h.op("close")
+        h.op("save 0")
+        for lost in (1, 2, 3):
+            for extra in (0, 5):
+                h.op("restore 0")
+                h.op(f"cut index {4 + 16 * (nsec - lost) + extra}")
+                h.open()
+                for a in ops_after:
+                    h.op(a)
+                h.op(f"push ts={last} pl={hexs(bytes(p))}")                   # equal to the last line: refused
+                h.op(f"push ts={firsts[nsec - lost] - 1} pl={hexs(bytes(p))}")  # older than the last section: refused
+                h.op(f"push ts={last - 1} pl={hexs(bytes(p))}")
+                h.op("range")
+                h.op(f"push ts={last + 1} pl={hexs(bytes(p))}")
+                for a in ops_after:
+                    h.op(a)
+                h.op("close")
+                h.op("files")
+        out.append((f"index-lag-p{p}", h.script()))
+    return out
+
+
+def empty_reopen_battery(ops_after):
+    """a series that is OPENED while it holds no line (created and closed, or its only line torn away)
+    and then filled: first timestamps whose low bytes could pass for an index-file header length
+    ((L + 4) % 16 == 0 with enough sections), seen again after the next reopen"""
+    out = []
+    for p in [0, 4]:
+        for first in [12, 28, 44, 60, 13, 65548, 0]:
+            for nsec in (1, 2, 3, 4):
+                for torn in (False, True):
+                    if torn and (nsec != 2 or first in (13, 0)):
+                        continue
+                    h = Hist(p)
+                    h.new()
+                    if torn:
+                        h.op(f"push ts=5 pl={hexs(bytes(p))}")
+                        h.op("close")
+                        h.op(f"cut data {header_len(p, 0) + h.ms + 1}")       # the section survives in part, its line does not
+                    else:
+                        h.op("close")
+                    h.op("open p=any hdr=any caches=- cb=none ext=0")
+                    for a in ops_after:
+                        h.op(a)
+                    t = first
+                    for sec in range(nsec):
+                        h.op(f"push ts={t} pl={hexs(bytes(p))}")
+                        h.op(f"push ts={t + 1} pl={hexs(bytes([sec + 1] * p))}")
+                        t += 100000 - first % 7
+                    h.op("files")
+                    h.op("close")
+                    h.op("open p=any hdr=any caches=- cb=none ext=0")
+                    for a in ops_after:
+                        h.op(a)
+                    h.op(f"push ts={t} pl={hexs(bytes(p))}")
+                    for a in ops_after:
+                        h.op(a)
+                    h.op("close")
+                    h.op("files")
+                    out.append((f"empty-reopen-p{p}-t{first}-s{nsec}" + ("-torn" if torn else ""), h.script()))
+    return out
+
+
 def gen_C03(rng, tier):
     out = refusals_with_caches_battery(rng, tier, ["files", "len", "range"])
     for h0 in _histories(rng, tier, PAYLOADS_SMALL):
@@ -651,6 +738,7 @@ def gen_C03(rng, tier):
                 h.op("files")
         out.append(("refuse", h.script()))
     out += torn_tail_battery(rng)
+    out += index_lag_battery(rng, ["range", "len", "last_line"])
     out += stale_bucket_battery(tier)         # appends after a tear must be accepted with caches too
     return out
 
@@ -659,6 +747,7 @@ def gen_C04(rng, tier):
     out = marker_word_battery(["files", "read_all s=U e=U", "len", "range"])
     out += payload_marker_battery(["files", "read_all s=U e=U", "len", "range", "last_line"])
     out += mixed_session_battery(rng, ["files", "len", "range"])
+    out += empty_reopen_battery(["files", "len", "range", "read_all s=U e=U"])
     # the same with downsample caches configured: reopening at every fill level of a bucket, with time
     # gaps inside the unfinished bucket, must succeed and preserve everything
     for B in (3, 10):
@@ -1700,7 +1789,7 @@ def _gen_consts():
     return {k: get(k) for k in ("textPre", "textMid", "textPost", "lineEnds")}
 
 
-def ref_file(p, user, entries, extra_sections=()):
+def ref_file(p, user, entries, extra_sections=(), lead=None):
     """a v1 file built from the documented layout alone (third implementation, in Python): header,
     then lines; a full-timestamp section before the first entry, wherever the delta does not fit,
     and additionally before every entry whose index is in `extra_sections` (legal, not canonical)"""
@@ -1713,13 +1802,18 @@ def ref_file(p, user, entries, extra_sections=()):
     full = None
     for i, (ts, pl) in enumerate(entries):
         if full is None or ts - full > MAXD or i in extra_sections:
-            t = ts.to_bytes(8, "little")
+            # `lead`: the full time stored in a section may lie BEFORE the entry that follows it (a writer
+            # that stores the full time on its own schedule); the entry's 16-bit time is then not zero
+            # ... but never at or before a line that is already stored (full times are "now" for the writer)
+            prev = entries[i - 1][0] if i > 0 else None
+            sec_ts = ts - min((lead or {}).get(i, 0), ts, MAXD, (ts - prev - 1) if prev is not None else ts)
+            t = sec_ts.to_bytes(8, "little")
             sec = b"\xff\xff" + t[:k] + bytes(p - k) + b"\xff\xff" + t[k:2 * k] + bytes(p - k)
             rest = t[2 * k:]
             nraw = (len(rest) + ls - 1) // ls
             sec += rest + bytes(nraw * ls - len(rest))
             out += sec
-            full = ts
+            full = sec_ts
         out += (ts - full).to_bytes(2, "little") + pl
     return bytes(out)
 
@@ -1744,7 +1838,19 @@ def noncanonical_battery(rng, tier):
         if i % 4 == 0:
             extra = set(range(n))            # every line in its own section
         user = bytes(rng.randrange(256) for _ in range(rng.choice([0, 3, 40])))
-        f = ref_file(p, user, entries, extra)
+        # every second file: sections whose full time lies before the entry that follows
+        lead = {j: rng.choice([1, 7, 300, MAXD]) for j in range(n) if rng.random() < 0.7} if i % 2 == 1 else None
+        if lead is not None:
+            secs = []
+            full = None
+            for j, (ts, _) in enumerate(entries):
+                if full is None or ts - full > MAXD or j in extra:
+                    prev = entries[j - 1][0] if j > 0 else None
+                    full = ts - min(lead.get(j, 0), ts, MAXD, (ts - prev - 1) if prev is not None else ts)
+                    secs.append(full)
+            if not marker_free(p, secs):
+                lead = None
+        f = ref_file(p, user, entries, extra, lead)
         last = entries[-1][0]
         ops = ["put data " + hexs(f),
                "open p=any hdr=any caches=- cb=none ext=0", "len", "range", "payload_size", "read_all s=U e=U",
@@ -1752,7 +1858,14 @@ def noncanonical_battery(rng, tier):
                f"push ts={last + 1} pl={hexs(bytes(p))}", f"push ts={last + 1 + MAXD + 5} pl={hexs(bytes([7] * p))}",
                "read_all s=U e=U", "len", "close",
                "open p=any hdr=any caches=- cb=none ext=0", "read_all s=U e=U", "len", "range", "close"]
-        out.append((f"noncanonical-p{p}", "\n".join(ops) + "\n"))
+        if lead:
+            # range() reports the first FULL time, which in such a file lies before the first line, and a
+            # BOUNDED read relies on "the first line of a section carries the section's time" (find_read_start's
+            # one-line shortcut, EndArea::Found): observed, see DESIGN.md 15.4.  No property speaks about
+            # accessors or bounded reads of such foreign files (C07: content read back; C02/C12: histories of
+            # the library itself), so only the full reads, first-n, last_line, len and the appends are judged
+            ops = [o for o in ops if o != "range" and not o.startswith("read_all s=I:")]
+        out.append((f"noncanonical-p{p}" + ("-lead" if lead else ""), "\n".join(ops) + "\n"))
     return out
 
 
